@@ -163,9 +163,11 @@ Definition opt_close {A} (cl : A -> A -> bool) (m o : option A) : bool :=
   end.
 Definition tscale (ps : list opose) : Q :=
   fold_left (fun s p => match o_t p with Some t => Qred (s + vmaxabs t) | None => s end) ps 0.
-Definition opose_close (scale : Q) (m o : opose) : bool :=
-  opt_close (fun a b => close_rot tol a b) (o_r m) (o_r o) &&
+(* rrep: a quaternion with the same rotation as the model's result, cheap to evaluate *)
+Definition opose_close_with (rrep : option quat) (scale : Q) (m o : opose) : bool :=
+  opt_close (close_rot tol) rrep (o_r o) &&
   opt_close (fun a b => close_vec tol scale b a) (o_t m) (o_t o).
+Definition opose_close (scale : Q) (m o : opose) : bool := opose_close_with (o_r m) scale m o.
 Definition outcome_close {A} (cl : A -> A -> bool) (m o : outcome A) : bool :=
   match m, o with
   | Ok a, Ok b => cl a b
@@ -198,7 +200,10 @@ Definition check_call (c : call) : bool :=
       | p :: ps', o :: os' => outcome_close (opose_close (tscale [p])) (Ok p) o && chain_ok o ps' os'
       | _, _ => false
       end
-  | CInverse p o => outcome_close (opose_close (tscale [p])) (inverse_api p) o
+  | CInverse p o =>
+      (* the rotation of q^-1 = conj q / n2 q is the rotation of conj q (PPose.close_rot_inverse): comparing
+         with conj q keeps every number dyadic *)
+      outcome_close (opose_close_with (option_map qconj (o_r p)) (tscale [p])) (inverse_api p) o
   | CTransform p rows o =>
       match transform_api p rows, o with
       | Ok ms, Ok os =>
